@@ -168,6 +168,7 @@ def smoke_run(ob, encoded, failed_args=None):
 # ----------------------------------------------------------------------------- direct obligations
 
 def run_direct(task):
+  worker.fresh_stdio()
   t0 = time.time()
   try:
     mod = importlib.import_module(task['module'])
@@ -264,6 +265,9 @@ def run_property(pid, tier, only=None, jobs=None, write_evidence=True, cube_filt
   direct_rows = []
   done = 0
   n_expected = len(pending)
+  last_progress = time.time()
+  stalled = False
+  stall_limit = max([o.timeout for o in obligations] + [60]) * 1.5 + 240
 
   while pending:
     progressed = False
@@ -356,9 +360,25 @@ def run_property(pid, tier, only=None, jobs=None, write_evidence=True, cube_filt
       if done % 10 == 0 or st not in ('confirmed',):
         log(f'[{pid} {done}/{n_expected}+] {ob.name}/{cube.tag}: {st} paths={res.get("paths")} '
             f'{res.get("wall_s")}s twin={tw} {res.get("message", "")[:120]}')
-    if not progressed:
+    if progressed:
+      last_progress = time.time()
+    else:
       time.sleep(0.2)
-  pool.close()
+      if time.time() - last_progress > stall_limit:
+        # no cube has finished for longer than any cube may take: a worker was lost (killed, or deadlocked right after
+        # fork).  Never hang: the remaining cubes are reported inconclusive.
+        for ob, cube, gen, ar in pending:
+          tag = getattr(cube, 'tag', ob.name)
+          log(f'[{pid}] STALLED: {ob.name}/{tag} - no result after {int(stall_limit)}s without progress; marked inconclusive')
+          total['obligations'] += 1
+          total['inconclusive'] += 1
+          cube_rows.append(dict(harness=ob.name, cube=tag, gen=gen, status='inconclusive(worker lost)', paths=0, wall_s=0))
+        pending = []
+        stalled = True
+  if stalled:
+    pool.terminate()
+  else:
+    pool.close()
   pool.join()
   shutil.rmtree(scratch, ignore_errors=True)
 
